@@ -5,8 +5,10 @@ Part 1 (enumeration): every boolean n x n matrix, n <= 4, that has a perfect mat
     returned blocks must partition the supplied equation / quantity labels into square,
     structurally non-singular blocks whose equations touch only own + earlier quantities.
     Matrices without a perfect matching are outside the property: the outcome is counted only.
-    thorough adds completely enumerated 5 x 5 families (permuted lower block-triangular patterns,
-    permuted diagonals + <= 3 extra entries, matrices with >= 20 entries).
+    thorough adds completely enumerated 5 x 5 families: permuted lower block-triangular patterns
+    (blocks <= 3), permuted diagonals + <= 3 extra entries, matrices with >= 20 entries (3 labelings
+    each); permuted diagonals + 4 extra entries, matrices with <= 2 entries in every row or in
+    every column (non-contiguous labeling).
 Part 2 (enumeration): Sequential.sequentialize on every zero-shift dependency digraph over 4
     equations x equation orders (+ every digraph over 3 equations x all 6 orders x all 27
     plain/identity/diff left-hand forms), lagged / lead / exogenous references as distractors.
@@ -16,8 +18,8 @@ Part 2 (enumeration): Sequential.sequentialize on every zero-shift dependency di
     and equation_strings / lhs names / residual names / incidence matrix are unchanged.
 Part 3 (enumeration): Simultaneous.split_into_blocks(None) on a generated model for every n x n
     incidence pattern with a perfect matching (quick n <= 3, thorough n = 4), 2 variants (plain;
-    reversed declarations + `dynamic !! steady` equations whose dynamic half names every
-    variable); same block oracle, evaluated on the equation strings and names of the blocks.
+    reversed declarations + `dynamic !! steady` equations whose dynamic half carries the
+    transposed pattern); same block oracle, evaluated on the equation strings and names of the blocks.
 
 Not detectable by construction (equivalent mutant): `_generate_inner_blocks` cutting at zero
     lower-left instead of zero upper-right corners.  After the heuristic the columns are sorted by
@@ -39,7 +41,7 @@ from ref import blockorder as B
 
 PROPERTY = "C16"
 LEVEL = "exploration"
-RULE = ("1: every boolean n x n matrix (n<=4; thorough + three completely enumerated 5x5 families) with a "
+RULE = ("1: every boolean n x n matrix (n<=4; thorough + five completely enumerated 5x5 families) with a "
         "perfect matching x id labelings {default, reversed, non-contiguous shuffled}; distinct non-trivial = "
         "distinct matrix with a perfect matching (labelings counted as evaluations only). 2: every labelled "
         "zero-shift dependency digraph over 4 equations x equation orders, every digraph over 3 equations x 6 "
@@ -50,15 +52,16 @@ MANIFEST_ENTRY = dict(
     technique="complete enumeration of boolean incidence matrices / dependency digraphs against an independent "
               "bipartite-matching and topological-order reference",
     text="blazer.blaze is run on every boolean matrix up to 4x4 that has a perfect matching (38 078 matrices) under 3 "
-         "id labelings, thorough adds ~1.6M completely enumerated 5x5 matrices (permuted lower block-triangular "
-         "patterns with blocks <= 3, permuted diagonals with <= 3 extra entries, matrices with >= 20 entries); each "
+         "id labelings, thorough adds ~1.7M completely enumerated 5x5 matrices (permuted lower block-triangular "
+         "patterns with blocks <= 3, permuted diagonals with <= 4 extra entries, matrices with >= 20 entries, matrices "
+         "with <= 2 entries per row or per column); each "
          "answer must be a partition of the supplied labels into square, structurally non-singular blocks that only "
          "look backwards. Sequential.sequentialize is run on all 4 096 zero-shift dependency digraphs over 4 equations "
          "(quick 4 equation orders, thorough all 24) and all 64 digraphs over 3 equations x 6 orders x 27 left-hand "
          "forms: acyclic => valid order, same equations, is_sequential; cyclic => raises, model untouched. "
          "Simultaneous.split_into_blocks is checked on a generated model per incidence pattern (n<=3 quick, n=4 thorough).",
     note="Trusted: ref/blockorder.py (backtracking matching cross-checked with Hall's condition on every block; Kahn "
-         "cross-checked with DFS). Not covered: matrices above 5x5, 5x5 outside the three families, steady plans with "
+         "cross-checked with DFS). Not covered: matrices above 5x5, 5x5 outside the listed families, steady plans with "
          "exogenized/endogenized names, duplicate left-hand names and zero-shift self references (outcomes counted, "
          "not gated). Fineness of the decomposition is recorded, not required.")
 ASSUMPTIONS = [
@@ -198,21 +201,40 @@ def shard_blaze_range(item, res, ctx):
         else:
             res.exclude("no_perfect_matching")
             check_blaze_case(n, bits, "default", ctx.seed, res, in_domain=False)
-    if lo == 0:
-        res.sample({"part": "blaze", "n": n, "codes": [lo, hi], "labelings": list(LABELINGS)})
+    if n == 4 and lo <= SAMPLE_BITS_4 < hi:
+        res.sample(blaze_sample(4, SAMPLE_BITS_4, "offset", ctx.seed))
 
 
 def shard_blaze_list(item, res, ctx):
     """an explicit list of 5 x 5 codes (already filtered for a perfect matching by the master)"""
-    n, codes, labs, family = item
+    n, codes, labs, family, prefiltered = item
     for bits in codes:
         rows = B.rows_from_bits(n, bits)
         if not B.has_pm(rows):
-            raise AssertionError("family generator produced a matrix without a perfect matching: %d" % bits)
+            if prefiltered:
+                raise AssertionError("family generator produced a matrix without a perfect matching: %d" % bits)
+            res.exclude("n5_family_member_without_perfect_matching")
+            continue
         res.count("matrices_with_perfect_matching")
         res.count("n5_matrices")
         for lab in labs:
             check_blaze_case(n, bits, lab, ctx.seed, res)
+    if SAMPLE_BITS_5 in codes:
+        res.sample(blaze_sample(5, SAMPLE_BITS_5, "offset", ctx.seed))
+
+
+SAMPLE_BITS_4 = 0b1001_0110_0011_0011        # rows 1100 / 1100 / 0110 / 1001 (leftmost character = column 0)
+SAMPLE_BITS_5 = 0b10000_01000_00110_00011_00101     # a permuted diagonal + 3 extra entries
+
+
+def blaze_sample(n, bits, lab, seed):
+    """one explored case written out for the evidence file"""
+    rows = B.rows_from_bits(n, bits)
+    eids, qids = labels(n, lab, seed)
+    r = call_blaze(n, rows, lab, seed)
+    return {"part": "blaze", "n": n, "bits": bits, "matrix_rows": _matrix_text(n, rows), "labeling": lab,
+            "eids": eids, "qids": qids,
+            "returned_blocks_eids_qids": [[[int(x) for x in b[0]], [int(x) for x in b[1]]] for b in r[1]] if r[0] == "ok" else repr(r[1])}
 
 
 # ---- 5 x 5 families (thorough), generated completely with numpy in the master ------------------
@@ -306,6 +328,21 @@ def family_dense(min_entries=20):
             else:
                 dropped += 1
     return np.array(sorted(out), dtype=np.int64), dropped
+
+
+def family_sparse_rows(max_per_row=2):
+    """every 5 x 5 matrix with 1..max_per_row entries in every row, and the transposes (1..max_per_row entries in
+    every column); members without a perfect matching are excluded (and counted) by the workers"""
+    opts = [sum(1 << j for j in c) for r in range(1, max_per_row + 1) for c in itertools.combinations(range(5), r)]
+    opts = np.array(opts, dtype=np.int64)
+    codes = np.zeros(1, dtype=np.int64)
+    for i in range(5):
+        codes = np.add.outer(codes, opts << (5 * i)).reshape(-1)
+    transposed = np.zeros_like(codes)
+    for i in range(5):
+        for j in range(5):
+            transposed |= ((codes >> (i * 5 + j)) & 1) << (j * 5 + i)
+    return np.unique(np.concatenate((codes, transposed)))
 
 
 # ---------------------------------------------------------------------------
@@ -504,9 +541,24 @@ def shard_seq4(item, res, ctx):
         forms = _forms_for(n, graph)
         for order in orders:
             check_seq_case(n, graph, order, forms, 0, ctx.seed, res)
-    if g_lo == 0:
-        res.sample({"part": "seq", "n": n, "graphs": [g_lo, g_hi], "orders": [list(o) for o in orders],
-                    "example_source": sequential_source(n, 0b000100100001, orders[-1], _forms_for(n, 0b000100100001), 0, ctx.seed)})
+    for graph in (SAMPLE_GRAPH_ACYCLIC, SAMPLE_GRAPH_CYCLIC):
+        if g_lo <= graph < g_hi:
+            res.sample(seq_sample(n, graph, orders[-1], _forms_for(n, graph), ctx.seed))
+
+
+SAMPLE_GRAPH_ACYCLIC = 0b000_100_000_011      # x0 reads x1, x2; x2 reads x3
+SAMPLE_GRAPH_CYCLIC = 0b000_000_001_001       # x0 reads x1, x1 reads x0
+
+
+def seq_sample(n, graph, order, forms, seed):
+    src = sequential_source(n, graph, order, forms, 0, seed)
+    m = ir.Sequential.from_string(src)
+    try:
+        out = [int(i) for i in m.sequentialize()]
+    except Exception as e:      # noqa: BLE001
+        out = "%s: %s" % (type(e).__name__, e)
+    return {"part": "seq", "n": n, "graph": graph, "order": list(order), "forms": list(forms), "source": src,
+            "acyclic": B.is_acyclic(n, deps_of(n, graph)), "sequentialize": out, "equations_after": list(m.equation_strings)}
 
 
 def shard_seq3(item, res, ctx):
@@ -544,7 +596,8 @@ def steady_model(n, rows, variant, seed):
     """-> (source, equation strings without blanks in row order, variable names in column order).
     Entry (i, j) is rendered as variable j with time shift ((i + 2j) mod 3) - 1; every equation also carries a shock
     and a parameter (which must not enter the incidence matrix).  variant 1 declares variables and writes equations in
-    reverse order (so ids differ from our row / column indexes)."""
+    reverse order (so ids differ from our row / column indexes) and writes every equation as `dynamic !! steady` with
+    the transposed pattern in the dynamic half (blocks must come from the steady halves)."""
     coef = _COEF_TABLES[seed % 3]
     names = _NAMES[:n]
     full = (1 << n) - 1
@@ -559,7 +612,9 @@ def steady_model(n, rows, variant, seed):
     eqs = []
     for i in range(n):
         if variant == 1:
-            eqs.append("%s !! %s" % (render(i, full), render(i, rows[i])))
+            # dynamic half: the transposed pattern (its block order is the reverse one), steady half: the pattern itself
+            tr = sum(1 << j for j in range(n) if (rows[j] >> i) & 1)
+            eqs.append("%s !! %s" % (render(i, tr or full), render(i, rows[i])))
         else:
             eqs.append(render(i, rows[i]))
     decl = list(names)
@@ -641,9 +696,20 @@ def shard_steady(item, res, ctx):
             continue
         for variant in (0, 1):
             check_steady_case(n, bits, variant, ctx.seed, res)
-    if lo == 0:
-        res.sample({"part": "steady", "n": n,
-                    "example_source": steady_model(n, B.rows_from_bits(n, (1 << (n * n)) - 1 - 2), 1, ctx.seed)[0]})
+    if n == 3 and lo <= SAMPLE_BITS_3 < hi:
+        rows = B.rows_from_bits(3, SAMPLE_BITS_3)
+        src, names = steady_model(3, rows, 1, ctx.seed)
+        m = ir.Simultaneous.from_string(src, linear=False, flat=True)
+        res.sample({"part": "steady", "n": 3, "bits": SAMPLE_BITS_3, "variant": 1, "matrix_rows": _matrix_text(3, rows),
+                    "source": src, "blocks": [[list(h.equations), list(h.quantities)] for h in m.split_into_blocks(None)]})
+
+
+SAMPLE_BITS_3 = 0b110_011_001        # rows 100 / 110 / 011
+
+
+def shard_dispatch(item, res, ctx):
+    """one pool for shards of different kinds: item = (shard function name, payload)"""
+    globals()[item[0]](item[1], res, ctx)
 
 
 # ---------------------------------------------------------------------------
@@ -661,40 +727,41 @@ def _chunks(seq, size):
 def run(ctx, total, info):
     deadline = (ctx.t0 + ctx.cap_s) if getattr(ctx, "cap_s", None) else None
     exhaustive = True
-    # ---- Part 1: n <= 4 ---------------------------------------------------------------------------------
-    shards = [(4, lo, lo + 512) for lo in range(0, 1 << 16, 512)]
-    shards += [(3, 0, 512), (2, 0, 16), (1, 0, 2)]
-    engine.run_shards(__name__, "shard_blaze_range", shards, ctx, total)
-    # ---- Part 2: sequentialize ------------------------------------------------------------------------------
+    # ---- core: everything up to 4 x 4 / 4 equations, one pool call, bigger shards first ------------------
     orders4 = QUICK_ORDERS if ctx.quick else tuple(itertools.permutations(range(4)))
     step = 128 if ctx.quick else 32
-    shards = [(4, lo, lo + step, orders4) for lo in range(0, 4096, step)]
-    engine.run_shards(__name__, "shard_seq4", shards, ctx, total)
-    shards = [(3, list(range(lo, lo + 2))) for lo in range(0, 64, 2)]
-    engine.run_shards(__name__, "shard_seq3", shards, ctx, total)
-    engine.run_shards(__name__, "shard_seq_small", [0], ctx, total)
-    # ---- Part 3: steady blocks of generated Simultaneous models ---------------------------------------------
-    shards = [(3, lo, lo + 32) for lo in range(0, 512, 32)] + [(2, 0, 16), (1, 0, 2)]
+    shards = []
     if not ctx.quick:
-        shards = [(4, lo, lo + 256) for lo in range(0, 1 << 16, 256)] + shards
-    engine.run_shards(__name__, "shard_steady", shards, ctx, total)
+        shards += [("shard_steady", (4, lo, lo + 256)) for lo in range(0, 1 << 16, 256)]
+    shards += [("shard_seq4", (4, lo, lo + step, orders4)) for lo in range(0, 4096, step)]
+    shards += [("shard_seq3", (3, list(range(lo, lo + 2)))) for lo in range(0, 64, 2)]
+    shards += [("shard_blaze_range", (4, lo, lo + 512)) for lo in range(0, 1 << 16, 512)]
+    shards += [("shard_blaze_range", (3, 0, 512)), ("shard_blaze_range", (2, 0, 16)), ("shard_blaze_range", (1, 0, 2))]
+    shards += [("shard_steady", (3, lo, lo + 32)) for lo in range(0, 512, 32)]
+    shards += [("shard_steady", (2, 0, 16)), ("shard_steady", (1, 0, 2)), ("shard_seq_small", 0)]
+    engine.run_shards(__name__, "shard_dispatch", shards, ctx, total)
     # ---- Part 1, thorough: 5 x 5 families ---------------------------------------------------------------------
     fam_info = {}
     if not ctx.quick:
         a, n_patterns = family_block_triangular()
         b = family_permuted_diagonal(3)
         c, dropped = family_dense(20)
-        fam_info = {"block_triangular": {"base_patterns": n_patterns, "distinct_matrices": int(a.size), "labelings": ["offset"]},
+        fam_info = {"block_triangular": {"base_patterns": n_patterns, "distinct_matrices": int(a.size), "labelings": list(LABELINGS)},
                     "permuted_diagonal_plus_le3": {"distinct_matrices": int(b.size), "labelings": list(LABELINGS)},
                     "dense_ge20_entries": {"distinct_matrices": int(c.size), "without_perfect_matching_dropped": dropped,
                                            "labelings": list(LABELINGS)}}
         b4 = family_permuted_diagonal(4)
         fam_info["permuted_diagonal_plus_4"] = {"distinct_matrices": int(b4.size - b.size), "labelings": ["offset"]}
-        bc = np.unique(np.concatenate((b, c)))
-        a_only = np.setdiff1d(np.union1d(a, b4), bc)
-        fam_info["union_distinct_matrices"] = int(bc.size + a_only.size)
-        shards = [(5, [int(x) for x in ch], LABELINGS, "bc") for ch in _chunks(bc, 1200)]
-        shards += [(5, [int(x) for x in ch], ("offset",), "a") for ch in _chunks(a_only, 3600)]
+        d = family_sparse_rows(2)
+        fam_info["le2_entries_in_every_row_or_in_every_column"] = {
+            "distinct_matrices_before_matching_filter": int(d.size), "labelings": ["offset"]}
+        abc = np.unique(np.concatenate((a, b, c)))
+        rest = np.setdiff1d(b4, abc)
+        d_only = np.setdiff1d(d, np.union1d(abc, rest))
+        fam_info["union_distinct_matrices_before_matching_filter"] = int(abc.size + rest.size + d_only.size)
+        shards = [(5, [int(x) for x in ch], LABELINGS, "abc", True) for ch in _chunks(abc, 1200)]
+        shards += [(5, [int(x) for x in ch], ("offset",), "b4", True) for ch in _chunks(rest, 8000)]
+        shards += [(5, [int(x) for x in ch], ("offset",), "d", False) for ch in _chunks(d_only, 8000)]
         done, n = engine.run_shards(__name__, "shard_blaze_list", shards, ctx, total, deadline=deadline)
         if done < n:
             exhaustive = False
@@ -705,7 +772,7 @@ def run(ctx, total, info):
         "blaze_n5_families": fam_info or "thorough only",
         "sequentialize": {"n4_digraphs": 4096, "n4_orders": len(orders4), "n3_digraphs": 64, "n3_orders": 6,
                           "n3_form_vectors": 27, "n3_selfref_masks": 7, "n3_duplicate_lhs": 1},
-        "steady_blocks": "every pattern with a perfect matching, n<=%d, 2 declaration variants" % (3 if ctx.quick else 4),
+        "steady_blocks": "every pattern with a perfect matching, n<=%d, 2 variants (plain; reversed declarations + dynamic !! steady)" % (3 if ctx.quick else 4),
     }
     info["bound_completed"] = {"matrix_size_complete": 4, "matrix_size_families": 4 if ctx.quick else 5,
                                "equations_complete": 4}
